@@ -13,24 +13,41 @@ def _init(*a):
     pass
 
 
-def _mk_executor(log, n_procs, max_workers, depth=0, env_ok=True):
-    lock = FakeLock(log, "mgmt")
-    ctx = FakeCtx(log, accepts_env=env_ok, mgmt_lock=lock)
-    procs = {10 + i: FakeProcess(log, 10 + i) for i in range(n_procs)}
-    ex = NS(_processes=procs, _max_workers=max_workers, _context=ctx, _call_queue="CQ", _result_queue="RQ",
-            _initializer=_init, _initargs=(1, 2), _processes_management_lock=lock, _timeout=3.5,
-            _env={"K": "V"})
+def _mk_executor(log, n_procs, max_workers, depth=0, env_ok=True, ctor_depth=None):
+    """A real ProcessPoolExecutor object built by the real constructor (so that whatever __init__ caches is
+    there), with a recording context and stubbed queues; the process table is then filled in."""
+    lock_holder = []
+    ctx = FakeCtx(log, accepts_env=env_ok, mgmt_lock=None)
+    saved = (pe._SafeQueue, pe.SimpleQueue, pe._ThreadWakeup, pe._check_system_limits, pe._CURRENT_DEPTH, pe.MAX_DEPTH)
+    pe._SafeQueue = lambda **kw: NS(tag="CQ")
+    pe.SimpleQueue = lambda reducers=None, ctx=None: NS(tag="RQ")
+    pe._ThreadWakeup = lambda: NS()
+    pe._check_system_limits = lambda: None
+    pe._CURRENT_DEPTH = depth if ctor_depth is None else ctor_depth
+    pe.MAX_DEPTH = 0
+    try:
+        ex = ProcessPoolExecutor(max_workers=max_workers, context=ctx, timeout=3.5, initializer=_init,
+                                 initargs=(1, 2), env={"K": "V"})
+    finally:
+        (pe._SafeQueue, pe.SimpleQueue, pe._ThreadWakeup, pe._check_system_limits, pe._CURRENT_DEPTH, pe.MAX_DEPTH) = saved
+    lock = ex._processes_management_lock
+    ctx.mgmt_lock = lock
+    ex._processes = {10 + i: FakeProcess(log, 10 + i) for i in range(n_procs)}
+    del log[:]
     return ex, ctx, lock
 
 
-def check_adjust(n: int, mw: int, depth: int, env_ok: bool) -> bool:
+def check_adjust(n: int, mw: int, depth: int, env_ok: bool, ctor_depth: int) -> bool:
     """
-    pre: 0 <= n <= 4 and 1 <= mw <= 4 and 0 <= depth <= 20
+    pre: 0 <= n <= 4 and 1 <= mw <= 4 and 0 <= depth <= 20 and 0 <= ctor_depth <= depth
     post: _
     """
+    # ctor_depth: what the module global read when the executor was constructed (0 inside a worker's
+    # initializer, which runs before the worker publishes its depth); depth: the creating process's
+    # depth, in force when workers are actually spawned. The worker must get depth + 1.
     n, mw = _conc(n, 4), _conc(mw, 4)
     log = Log()
-    ex, ctx, lock = _mk_executor(log, n, mw, env_ok=env_ok)
+    ex, ctx, lock = _mk_executor(log, n, mw, env_ok=env_ok, ctor_depth=ctor_depth)
     before = dict(ex._processes)
     saved = pe._CURRENT_DEPTH
     pe._CURRENT_DEPTH = depth
@@ -52,7 +69,8 @@ def check_adjust(n: int, mw: int, depth: int, env_ok: bool) -> bool:
         # positions _process_worker binds them to
         if p.target is not _process_worker or len(a) != 8:
             return False
-        if a[0] != "CQ" or a[1] != "RQ" or a[2] is not _init or a[3] != (1, 2) or a[4] is not lock:
+        if a[0] is not ex._call_queue or a[1] is not ex._result_queue or a[2] is not _init or a[3] != (1, 2) \
+                or a[4] is not lock:
             return False
         if a[5] != 3.5 or a[6] is not p._worker_exit_lock or a[7] != depth + 1:
             return False
